@@ -56,6 +56,7 @@ func FieldTypes(level int) []FieldType {
 			FieldType{"map[string]uint64", reflect.MapOf(tString, ScalarTypes[6].T)}, FieldType{"*interface{}", reflect.PtrTo(tIfc)}, FieldType{"[][]int", reflect.SliceOf(reflect.SliceOf(ScalarTypes[0].T))},
 			FieldType{"*[]string", reflect.PtrTo(reflect.SliceOf(tString))}, FieldType{"map[string][]int", reflect.MapOf(tString, reflect.SliceOf(ScalarTypes[0].T))},
 			FieldType{"map[string]*Inner", reflect.MapOf(tString, reflect.PtrTo(Inner))}, FieldType{"[]bool", reflect.SliceOf(ScalarTypes[2].T)})
+		out = append(out, SeedFieldTypes()...)
 	}
 	return out
 }
